@@ -33,7 +33,8 @@ namespace GeographicLib {
       y0 = y,
       z0 = z,
       mul = 1;
-    while (Q >= mul * fabs(An)) {
+    // Limit the number of trips in case the arguments are inf or overflow
+    for (int k = 0; k < maxtrips_ && Q >= mul * fabs(An); ++k) {
       // Max 6 trips
       real lam = sqrt(x0)*sqrt(y0) + sqrt(y0)*sqrt(z0) + sqrt(z0)*sqrt(x0);
       An = (An + lam)/4;
@@ -138,7 +139,8 @@ namespace GeographicLib {
       mul = 1,
       mul3 = 1,
       s = 0;
-    while (Q >= mul * fabs(An)) {
+    // Limit the number of trips in case the arguments are inf or overflow
+    for (int k = 0; k < maxtrips_ && Q >= mul * fabs(An); ++k) {
       // Max 7 trips
       real
         lam = sqrt(x0)*sqrt(y0) + sqrt(y0)*sqrt(z0) + sqrt(z0)*sqrt(x0),
@@ -188,7 +190,8 @@ namespace GeographicLib {
       z0 = z,
       mul = 1,
       s = 0;
-    while (Q >= mul * fabs(An)) {
+    // Limit the number of trips in case the arguments are inf or overflow
+    for (int k = 0; k < maxtrips_ && Q >= mul * fabs(An); ++k) {
       // Max 7 trips
       real lam = sqrt(x0)*sqrt(y0) + sqrt(y0)*sqrt(z0) + sqrt(z0)*sqrt(x0);
       s += 1/(mul * sqrt(z0) * (z0 + lam));
